@@ -469,10 +469,15 @@ func (la *LockAnalysis) solve() {
 						if c.Blocks == nil {
 							continue
 						}
-						la.callers[c] = append(la.callers[c], callSite{f, site, h})
-						if ctorCall && site.Common().StaticCallee() != c {
+						if ctorCall {
+							// neither a dynamic nor a static call constrains the callee here: everything it can
+							// reach through its arguments is unpublished in this chain (globals are L7's business)
+							if site.Common().StaticCallee() != c {
+								la.callers[c] = append(la.callers[c], callSite{f, site, h})
+							}
 							continue
 						}
+						la.callers[c] = append(la.callers[c], callSite{f, site, h})
 						if _, isRoot := la.roots[c]; isRoot {
 							continue
 						}
